@@ -51,8 +51,25 @@ THEOREMS = [
     "Nix.C02.handle_independence_before_counterexample",
     "Nix.C02.bound_handle_write",
     "Nix.C02.bound_handle_write_before_counterexample",
+    "Nix.C02.handle_fields_accounted",
+    "Nix.C02.handle_fields_assigned_where_modelled",
+    "Nix.C02.handle_fields_all_present",
+    "Nix.C02.h5cache_sites",
+    "Nix.C02.no_other_state",
 ]
+
+
+def extract(repo):
+    """translator tie: the per-object / per-module state the nixio sources have today (Generated/HandleState.lean)"""
+    from ..extract import handlestate
+    return handlestate.extract(repo)
+
+
 ASSUMPTIONS = [
+    "the handle-state translator sees assignments of instance fields, class / module level containers, `global`, "
+    "caching decorators, __slots__, __setattr__ hooks, private stores on other objects and item assignments through a "
+    "field; state hidden elsewhere (closures, default-argument containers, attributes set on h5py objects, "
+    "weak-reference registries) is outside it and is left to the two-handle sweep of the oracle",
     "persistence itself is runtime truth: that libhdf5/h5py return after close + open what was written is modelled "
     "by `Op.reopen` = identity on the graph and exercised (not proved) by the correspondence and the oracle",
     "the handle machine covers the H5Group handles on the children of one live parent group (link lists and role "
@@ -74,10 +91,19 @@ MANIFEST = {
                   "state until something is created or linked again; (2) a state machine of the only volatile state, "
                   "the cached h5py group of H5Group handles: for every history of link-list operations through any "
                   "number of handles every handle shows what a fresh handle shows, and a write through a handle lands on "
-                  "the object the handle stands for. Both models are hand-written and tied to the code by differential "
+                  "the object the handle stands for; (3) a table, regenerated from the nixio sources on every run, of "
+                  "every place an instance field is assigned, every class / module level container, global, caching "
+                  "decorator, attribute hook and item assignment through a field: each field is one the models account "
+                  "for (reference fixed at construction, lazily created container handle, the cached group, parent "
+                  "handle, session switch, value object) and is assigned only where that role allows - no object, class "
+                  "or module keeps cached content (a new per-handle cache breaks a named theorem). Models (1) and (2) are "
+                  "hand-written and tied to the code by differential "
                   "execution on real HDF5 files (cached vs fresh handles chosen at random, reopen read-only and "
                   "read-write, HDF5-level dumps), and an implementation-side oracle compares the complete API walk "
-                  "(every public readable property, by introspection) before closing and after reopening.",
+                  "(every public readable property, by introspection) before closing and after reopening, sweeps every "
+                  "plain attribute through changes of representation (last write wins) and makes every mutation through a "
+                  "second handle while a first one is kept alive (the kept handle must answer like a fresh one: "
+                  "properties, data, method results).",
     "level_note": "Partial: persistence (HDF5 storage, flush, close) is runtime truth carried by the correspondence / "
                   "oracle, not by a theorem; the structural model tracks string attributes only. Two defects were "
                   "repaired in /repo (fix: 3f50192 stale second handle on an emptied and refilled link list, D9; "
@@ -1134,6 +1160,51 @@ def fixed_scenarios(ctx):
                                  "unlinked", "stale-link-list-handle"))
     finally:
         f.close()
+    # every kind of link list: filled through handle 1 (handle 2 has seen it non-empty), emptied through handle 1 (the
+    # HDF5 group of the list is removed with its last entry), refilled through handle 2: every handle, a fresh handle
+    # and the reopened file show the entry
+    f = fresh()
+    try:
+        b = f.create_block("b", "t")
+        a = b.create_data_array("a", "t", data=[1.0])
+        b.create_group("g", "t")
+        b.create_tag("tg", "t", [0.0])
+        b.create_multi_tag("mt", "t", positions=b.create_data_array("p", "t", data=[1.0]))
+        src = b.create_source("s", "t")
+        lists = [("group.data_arrays", lambda: b.groups["g"].data_arrays, a),
+                 ("group.tags", lambda: b.groups["g"].tags, b.tags["tg"]),
+                 ("group.multi_tags", lambda: b.groups["g"].multi_tags, b.multi_tags["mt"]),
+                 ("group.sources", lambda: b.groups["g"].sources, src),
+                 ("tag.references", lambda: b.tags["tg"].references, a),
+                 ("tag.sources", lambda: b.tags["tg"].sources, src),
+                 ("multi_tag.references", lambda: b.multi_tags["mt"].references, a),
+                 ("array.sources", lambda: b.data_arrays["a"].sources, src)]
+        want = {}
+        for desc, get, item in lists:
+            owner1, owner2 = get(), get()
+            owner1.append(item)
+            seen = len(owner2)
+            del owner1[0]
+            owner2.append(item)
+            got = [seen, len(owner1), len(owner2), len(get())]
+            want[desc] = item.id
+            if got != [1, 1, 1, 1]:
+                fails.append(Failure("an entry appended through a second handle, after the list was emptied through the "
+                                     "first, is not shown by every handle (%s)" % desc,
+                                     {"scenario": "refill-through-second-handle", "list": desc,
+                                      "log": ["h1.append(x)", "len(h2)", "del h1[0]", "h2.append(x)", "len(h1), len(h2), len(fresh)"]},
+                                     got, [1, 1, 1, 1], "stale-link-list-handle"))
+        f.close()
+        f = nixio.File.open(path, nixio.FileMode.ReadOnly)
+        b = f.blocks["b"]
+        for desc, get, item in lists:
+            ids = [x.id for x in get()]
+            if ids != [want[desc]]:
+                fails.append(Failure("an entry appended through a second handle is lost after close + reopen (%s)" % desc,
+                                     {"scenario": "refill-through-second-handle", "list": desc}, ids, [want[desc]],
+                                     "stale-link-list-handle"))
+    finally:
+        f.close()
     # a handle obtained through a link list entry, written to after the entry was unlinked
     f = fresh()
     try:
@@ -1190,7 +1261,7 @@ def fixed_scenarios(ctx):
             os.remove(path)
         except OSError:
             pass
-    return fails, 4
+    return fails, 12
 
 # ---- attribute sweep: last write wins for every plain attribute and every change of representation ------------
 
